@@ -163,9 +163,17 @@ type Report struct {
 	NoRuns     bool // the check does not use the wx explorer: exhaustiveness is decided by the check itself
 }
 
+// GlobalNotes are added to every report (set before the check starts).
+var GlobalNotes []string
+
 // NewReport starts a report.
 func NewReport(prop, tier string) *Report {
-	return &Report{Prop: prop, Tier: tier, Start: time.Now(), Exhaustive: true, Known: map[string]string{}, Outcomes: map[string]int{}, Extra: map[string]interface{}{}}
+	rp := &Report{Prop: prop, Tier: tier, Start: time.Now(), Exhaustive: true, Known: map[string]string{}, Outcomes: map[string]int{}, Extra: map[string]interface{}{}}
+	if len(GlobalNotes) > 0 {
+		rp.Notes = append(rp.Notes, GlobalNotes...)
+		rp.Exhaustive = false
+	}
+	return rp
 }
 
 // Violation records a violation with its replay file.
